@@ -287,7 +287,7 @@ class Interp:
                 raise PyRaise("ValidationError", node, f"{cls.name}.{fname}: an instance of {rc.name} is required, got {self.tname(value)}")
             return value
         if "np.ndarray" in a and "Number" in a:      # Optional[Union[np.ndarray, Number]]
-            if value is None or isinstance(value, (AArr, SymScalar, int, float)) and not isinstance(value, bool):
+            if value is None or self.isinstance_(value, (NDARRAY, NUMBER)):
                 return value
             raise PyRaise("ValidationError", node, f"{cls.name}.{fname}: ndarray or Number required, got {self.tname(value)}")
         if a.startswith("Optional[") and a[9:-1].isidentifier():
